@@ -5,6 +5,10 @@
 // (ties-to-even by construction) and glibc's answer is checked against it.
 #include <memory>
 
+#include <clocale>
+#include <unistd.h>
+
+#include "common/env_locale.hpp"
 #include "common/families.hpp"
 #include "common/refjson.hpp"
 #include "common/runner.hpp"
@@ -147,6 +151,13 @@ struct ExactBuf {
 
 // check one number spelling in three contexts.  If have_exact: the double must have bits
 // exact_bits (or, when exact_inf, the parse must fail with the infinity error).
+static const char* kLocaleClassics[] = {"2.5e-320", "1.8e308", "-1.8e308", "9007199254740993.00000000000000000001", "0.1", "1.5", "1.7976931348623157e308", "4.9e-324", "123.456e-310", "0.000001", "1.0e400", "1.0e-400",
+    "100000000000000016777215.5", "2.2250738585072011e-308", "8.5e22", "3.14159265358979323846264338327950288", "0.30000000000000004440892098500626", "1e23", "9007199254740992.5"};
+// ---- process locale (family N11) ----
+// A private locale whose decimal point is ',' (as in de_DE, fr_FR, ru_RU ...; only C / POSIX are installed here) is
+// compiled with localedef next to the engine binary. While g_in_comma_locale is set, ONLY the library's Parse call runs
+// under it; the reference (glibc strtod) and all formatting run in the C locale.
+static bool g_have_comma_locale = false, g_in_comma_locale = false;
 static void check_number(const std::string& num, vr::Ctx& ctx, bool have_exact = false, uint64_t exact_bits = 0, bool exact_inf = false) {
   static const char* pre[3] = {"", "[", "{\"k\":"};
   static const char* post[3] = {"", "]", " }"};
@@ -172,7 +183,9 @@ static void check_number(const std::string& num, vr::Ctx& ctx, bool have_exact =
     }
     ExactBuf b(text);
     Document doc;
+    if (g_in_comma_locale) setlocale(LC_NUMERIC, "xx_XX");
     doc.Parse(b.p, b.n);
+    if (g_in_comma_locale) setlocale(LC_NUMERIC, "C");
     std::string shown = text.size() > 160 ? text.substr(0, 80) + "..." + text.substr(text.size() - 60) + " (" + std::to_string(text.size()) + " bytes)" : text;
     if (!r.ok) {
       if (!doc.HasParseError())
@@ -485,6 +498,35 @@ int main(int argc, char** argv) {
       check_number("-" + s, ctx, true, eb | (1ull << 63), einf);
       return;
     }
+    if (nm[1] == '1' && nm[2] == '1') {
+      if (!g_have_comma_locale) {
+        ctx.skip();
+        return;
+      }
+      const uint64_t nc = sizeof kLocaleClassics / sizeof kLocaleClassics[0];
+      std::string sp;
+      bool have = false, einf = false;
+      uint64_t eb = 0;
+      if (idx < nc)
+        sp = kLocaleClassics[idx];
+      else {
+        uint64_t r = idx - nc;
+        unsigned var = (unsigned)(r % 3);
+        r /= 3;
+        unsigned pi = n10pi[r % n10pi.size()];
+        unsigned be = n10be[r / n10pi.size()];
+        Dec d;
+        n4case(be, pi, var, d, eb, einf);
+        sp = respell(d, 0, 1);
+        have = true;
+      }
+      if (ctx.want_sample) ctx.sample(sp.substr(0, 60));
+      ctx.nontriv();
+      g_in_comma_locale = true;
+      check_number(sp, ctx, have, eb, einf);
+      g_in_comma_locale = false;
+      return;
+    }
     if (nm[1] == '1' && nm[2] == '0') {
       unsigned shape = (unsigned)(idx % 2);
       idx /= 2;
@@ -687,19 +729,31 @@ int main(int argc, char** argv) {
   f8.group = "N8";
   f8.chunk = 4;
   f8.rule = "N4 strings (exact tie / below / above) of " + std::to_string(n8be.size()) + " exponents x " + std::to_string(n8pi.size()) + " patterns re-spelled with z zeros for z in {9999..10001, 99999..100001, ... 10^6}: (0) integer mantissa with z trailing zeros and exponent about -z, (1) z trailing fraction zeros, (2) z leading fraction zeros and exponent about +z; expected bits known exactly";
+  // N11: the process locale
+  {
+    std::string self = argv[0];
+    size_t sl = self.rfind('/');
+    g_have_comma_locale = envl::build_comma_locale((sl == std::string::npos ? std::string(".") : self.substr(0, sl)) + "/locale_comma");
+  }
+  vr::Family f11;
+  f11.name = "N11_process_locale";
+  f11.count = (uint64_t)n10be.size() * n10pi.size() * 3 + sizeof kLocaleClassics / sizeof kLocaleClassics[0];
+  f11.group = "N11";
+  f11.chunk = 32;
+  f11.rule = std::string("the same expectations while the PROCESS runs in a locale whose decimal point is ',' (LC_NUMERIC of a private locale compiled with localedef; only the library's Parse call runs under it): exact tie / below / above spellings written d.ddd...e+-x for ") + std::to_string(n10be.size()) + " binary exponents x " + std::to_string(n10pi.size()) + " significand patterns, and 19 classic spellings with a decimal point (subnormal, overflow, long fractions)" + (g_have_comma_locale ? "" : " [SKIPPED: the locale could not be built]");
   vr::Family f10;
   f10.name = "N10_siblings_in_one_document";
   f10.count = (uint64_t)n10be.size() * n10pi.size() * 9 * 2;
   f10.group = "N10";
   f10.chunk = 32;
   f10.rule = "two numbers in ONE document ([x,y] and {\"a\":x,\"b\":-y}): all ordered pairs over the exact tie / one unit below / one unit above spellings of the same midpoint (they share every leading digit and differ only in the last of up to ~770), for " + std::to_string(n10be.size()) + " binary exponents x " + std::to_string(n10pi.size()) + " significand patterns: each must be rounded on its own";
-  fams = {f1, f2, f2b, f3, f3b, f4, f5, f6, f7, f8, f9, f10};
+  fams = {f1, f2, f2b, f3, f3b, f4, f5, f6, f7, f8, f9, f10, f11};
   if (asan) {
     // the ASan pass re-runs the structurally interesting families only
-    fams = {f1, f2b, f4, f5, f6, f7, f8, f9, f10};
+    fams = {f1, f2b, f4, f5, f6, f7, f8, f9, f10, f11};
   }
   if (args.replay) {
-    std::vector<vr::Family> all = {f1, f2, f2b, f3, f3b, f4, f5, f6, f7, f8, f9, f10};
+    std::vector<vr::Family> all = {f1, f2, f2b, f3, f3b, f4, f5, f6, f7, f8, f9, f10, f11};
     return R.replay_one(all, check);
   }
   const std::string only = args.get("only");
